@@ -20,15 +20,21 @@
 //	      getq     GetComponentConfiguration(query)      (no fallback)
 //	      proc     GetAndProcessComponentConfiguration(resolved, vars) on ANOTHER fresh service (- when nothing resolved)
 //	      G, P := (ok "payload") | (err nopayload|notstring|badkey|load|syntax|badident|exec|other) | -
+//
+//	(seq ((key kind content)...) (op...))
+//	    a HISTORY of requests on one local.Service over a backend that may change in between: see seq.go.
 package c20
 
 import (
+	"bytes"
+	"encoding/json"
 	"fmt"
 	"go/ast"
 	"go/parser"
 	"go/token"
 	"os"
 	"path/filepath"
+	"reflect"
 	"sort"
 	"strconv"
 	"strings"
@@ -156,7 +162,23 @@ func buildYaml(entries *sx.Node) ([]byte, error) {
 			cur = m
 		}
 	}
-	return yaml.Marshal(root)
+	// Written as JSON (a subset of YAML: flow mappings, double-quoted scalars with explicit escapes). yaml.Marshal picks
+	// block scalars for strings with leading blanks/newlines, which yaml.Unmarshal then reads back differently or rejects.
+	var buf bytes.Buffer
+	enc := json.NewEncoder(&buf)
+	enc.SetEscapeHTML(false)
+	if err := enc.Encode(root); err != nil {
+		return nil, err
+	}
+	// the backend must hold exactly the entries the input lists: read the file back the way the backend will
+	var back interface{}
+	if err := yaml.Unmarshal(buf.Bytes(), &back); err != nil {
+		return nil, fmt.Errorf("generated YAML does not parse: %v", err)
+	}
+	if !reflect.DeepEqual(back, interface{}(root)) {
+		return nil, fmt.Errorf("generated YAML does not read back to the same tree")
+	}
+	return buf.Bytes(), nil
 }
 
 func payloadObs(tag string, payload string, err error) *sx.Node {
@@ -239,6 +261,8 @@ func runImpl(input string) (string, error) {
 		return runParse(in.At(1).Str()), nil
 	case "lookup":
 		return runLookup(in)
+	case "seq":
+		return runSeq(in)
 	}
 	return "", fmt.Errorf("unknown case kind %q", in.At(0).Str())
 }
@@ -650,13 +674,17 @@ func genLookupCase(r *rng.R) fw.Case {
 }
 
 func generate(tier string, r *rng.R) []fw.Case {
-	nParse, nLookup := 50000, 3000
+	nParse, nLookup, nSeq := 50000, 3000, 3000
 	if tier == "thorough" {
-		nParse, nLookup = 400000, 30000
+		nParse, nLookup, nSeq = 400000, 30000, 30000
 	}
 	cs := exhaustiveLookups()
+	cs = append(cs, fixedSeqs()...)
 	for i := 0; i < nLookup; i++ {
 		cs = append(cs, genLookupCase(r.Fork()))
+	}
+	for i := 0; i < nSeq; i++ {
+		cs = append(cs, genSeqCase(r.Fork()))
 	}
 	for i := 0; i < nParse; i++ {
 		cs = append(cs, genParseCase(r.Fork()))
@@ -677,6 +705,9 @@ func nontrivial(input, obs string) bool {
 	case "lookup":
 		// a tree with at least four entries (candidates and distractors)
 		return in.At(2).Len() >= 4
+	case "seq":
+		// a history with at least two processed requests
+		return seqNontrivial(in)
 	}
 	return false
 }
@@ -706,6 +737,8 @@ func shrinkCands(input string) []string {
 			n.List = append(append([]*sx.Node{}, vars.List[:i]...), vars.List[i+1:]...)
 			out = append(out, sx.L(sx.A("lookup"), in.At(1), ents, n).String())
 		}
+	case "seq":
+		out = seqShrink(in)
 	}
 	return out
 }
@@ -719,19 +752,24 @@ func init() {
 		Rule: "lookup: 8 query shapes (distinct / role already 'any' / run type already ANY / all coincide / NULL run type / trailing-slash, " +
 			"empty-segment and fallback-named entries) x EVERY assignment {absent,value,directory} of the distinct candidate entries (covers all 16 " +
 			"existence patterns; exhaustive) x 2 contents, plus random shapes/contents/variables, each through a fresh local.Service over a generated " +
-			"YAML file (real YamlSource wrapped in an Exists-recorder); parse: grammar-generated component/RUNTYPE/role/entry strings, entries " +
+			"YAML file (real YamlSource wrapped in an Exists-recorder); seq: histories of 3-12 requests (GetAndProcess direct or after ResolveComponentQuery, " +
+			"GetComponentConfiguration, InvalidateComponentTemplateCache, backend put/del) on ONE local.Service, over 1-4 fallback directories of one component " +
+			"holding snippets and entries that include / extend each other (s0<s1<base<mid<entries, nested sub/ directory, full-path and unloadable " +
+			"references), every request with an independent random subset of 6 variable names, queries repeated with other variables, 1 in 4 histories " +
+			"with backend changes (half of them followed by an invalidation), plus 11 fixed histories; parse: grammar-generated component/RUNTYPE/role/entry strings, entries " +
 			"paths and parameter lists, 12 mutation operators, random soup, surrounding Unicode blanks, through NewQuery/NewEntriesQuery/" +
-			"NewQueryParameters; non-trivial = lookup with >=4 tree entries, or parse string with >=2 '/' or a '='; distinct by input text",
+			"NewQueryParameters; non-trivial = lookup with >=4 tree entries, seq with >=2 processed requests, or parse string with >=2 '/' or a '='; distinct by input text",
 		Shrink:     shrinkCands,
 		Exhaustive: func(string) bool { return false },
 		Workers:    1,
 		TrustedBase: []string{
 			"harness/props/c20 (YAML tree builder, Exists recorder, error-class mapping)",
-			"Go regexp, strings.TrimSpace, net/url.ParseQuery, gopkg.in/yaml.v3, pongo2 lexer/parser (only the plain {{ name }} fragment is modelled)",
+			"Go regexp, strings.TrimSpace, net/url.ParseQuery, gopkg.in/yaml.v3, pongo2 lexer/parser (modelled: text, {{ name }}, {% include \"f\" %}, {% extends \"f\" %}, top-level {% block %})",
 			"/repo/apricot/local/verif_hook_c20.go (build tag verif): constructor for a Service over a given cfgbackend.Source",
 		},
 		Assumptions: []string{
-			"the payload clause is about a fresh Service: the per-base-path pongo2 template cache is not modelled (quantifier is over inputs and configurations, not histories)",
+			"lookup cases run a fresh Service per case; seq cases run a whole history on one Service (template cache modelled as path -> backend snapshot at compile time)",
+			"include/extends chains are acyclic (the real loader recurses without a guard; cyclic inputs are refused by the harness)",
 			"variable keys are distinct after strings.TrimSpace (otherwise Go map iteration order decides which value wins)",
 			"strings are valid UTF-8",
 		},
@@ -819,6 +857,85 @@ func regexSources(repo string) (map[string]string, error) {
 		return true
 	})
 	return out, nil
+}
+
+// templateSetFacts: (selectors applied to the TemplateSet variable inside GetAndProcessComponentConfiguration, number of other
+// references to it, functions of apricot/local mentioning the field templateSets).
+func templateSetFacts(repo string) (uses []string, others int, users []string, err error) {
+	fset := token.NewFileSet()
+	pkgs, err := parser.ParseDir(fset, repo+"/apricot/local", func(fi os.FileInfo) bool { return !strings.HasSuffix(fi.Name(), "_test.go") }, 0)
+	if err != nil {
+		return nil, 0, nil, err
+	}
+	found := false
+	userSet := map[string]bool{}
+	for _, pkg := range pkgs {
+		for _, f := range pkg.Files {
+			for _, d := range f.Decls {
+				fd, ok := d.(*ast.FuncDecl)
+				if !ok || fd.Body == nil {
+					continue
+				}
+				ast.Inspect(fd.Body, func(n ast.Node) bool {
+					if se, ok := n.(*ast.SelectorExpr); ok && se.Sel.Name == "templateSets" {
+						userSet[fd.Name.Name] = true
+					}
+					return true
+				})
+				if fd.Name.Name != "GetAndProcessComponentConfiguration" || fd.Recv == nil {
+					continue
+				}
+				found = true
+				// the variable: left-hand side of the assignment from templateSetForBasePath
+				varName := ""
+				ast.Inspect(fd.Body, func(n ast.Node) bool {
+					as, ok := n.(*ast.AssignStmt)
+					if !ok || len(as.Lhs) != 1 || len(as.Rhs) != 1 {
+						return true
+					}
+					call, ok := as.Rhs[0].(*ast.CallExpr)
+					if !ok {
+						return true
+					}
+					if se, ok := call.Fun.(*ast.SelectorExpr); ok && se.Sel.Name == "templateSetForBasePath" {
+						if id, ok := as.Lhs[0].(*ast.Ident); ok {
+							varName = id.Name
+						}
+					}
+					return true
+				})
+				if varName == "" {
+					return nil, 0, nil, fmt.Errorf("GetAndProcessComponentConfiguration: no variable assigned from templateSetForBasePath")
+				}
+				selected := map[*ast.Ident]bool{}
+				ast.Inspect(fd.Body, func(n ast.Node) bool {
+					if se, ok := n.(*ast.SelectorExpr); ok {
+						if id, ok := se.X.(*ast.Ident); ok && id.Name == varName {
+							uses = append(uses, se.Sel.Name)
+							selected[id] = true
+						}
+					}
+					return true
+				})
+				total := 0
+				ast.Inspect(fd.Body, func(n ast.Node) bool {
+					if id, ok := n.(*ast.Ident); ok && id.Name == varName && !selected[id] {
+						total++
+					}
+					return true
+				})
+				others = total - 1 // minus the defining occurrence
+			}
+		}
+	}
+	if !found {
+		return nil, 0, nil, fmt.Errorf("method GetAndProcessComponentConfiguration not found in apricot/local")
+	}
+	for u := range userSet {
+		users = append(users, u)
+	}
+	sort.Strings(users)
+	return uses, others, users, nil
 }
 
 func genTables(repo string) (string, error) {
@@ -941,6 +1058,23 @@ func genTables(repo string) (string, error) {
 		fmt.Fprintf(&b, "  ([%s], %s)%s\n", strings.Join(ps, ", "), r, sep)
 	}
 	b.WriteString("]\n\n")
+
+	// 4b. cross-request state of the processing path (go/ast over apricot/local): what GetAndProcessComponentConfiguration
+	// does with the per-base-path template set it obtains, and which functions touch the map of template sets
+	uses, others, users, err := templateSetFacts(repo)
+	if err != nil {
+		return "", err
+	}
+	strList := func(xs []string) string {
+		var ps []string
+		for _, x := range xs {
+			ps = append(ps, leanChars(x))
+		}
+		return "[" + strings.Join(ps, ", ") + "]"
+	}
+	fmt.Fprintf(&b, "/-- selectors applied to the variable holding the cached *pongo2.TemplateSet in GetAndProcessComponentConfiguration, in\n    source order (go/ast). -/\ndef tplSetUses : List (List Char) := %s\n\n", strList(uses))
+	fmt.Fprintf(&b, "/-- other references to that variable (passed on, assigned, …) besides its definition and the selectors above. -/\ndef tplSetOtherRefs : Nat := %d\n\n", others)
+	fmt.Fprintf(&b, "/-- functions of package apricot/local (non-test files) that mention the field `templateSets`, sorted. -/\ndef templateSetsUsers : List (List Char) := %s\n\n", strList(users))
 
 	// 5. names bound by the service besides the supplied variables
 	var fn []string
